@@ -496,7 +496,7 @@ func (e *Env) assemble(q *Prod, caps []capRec, r, r2 int) (*Node, error) {
 		case "string":
 			s, _ := n.F[f.Name].(string)
 			n.F[f.Name] = s + joinVals(c.vals)
-		case "strs":
+		case "strs", "cstrs":
 			s, _ := n.F[f.Name].([]string)
 			for _, v := range c.vals {
 				s = append(s, v.(string))
